@@ -65,7 +65,7 @@ Definition c10_core_step (c0 tdrv tis : Z) (w : wst) (o : op) (x : out) : option
   | Peek k _ =>
       if closed_before && negb (kind_eqb k KDest) then
         match r with
-        | Ok [_; cl; n; _; _; _] => if (cl =? 1) && (n =? 0) then Some w' else None
+        | Ok [_; cl; n; _; _; _] => if (cl =? 1) && (if kind_eqb k KSub then n =? 0 else true) then Some w' else None
         | _ => Some w'
         end
       else Some w'
